@@ -372,6 +372,38 @@ def cmd_check(args):
                     print('  [%s] %-40s %6.1fs obligations=%d failed=%d %s' % (r['status'], r['id'], r['wall_s'], r['obligations'], len(r['failed']), '; '.join(n[:300] for n in r['notes'])), flush=True)
     finally:
         sc.close()
+    c20_info = None
+    if pid == 'C20':
+        import c20
+        sc2 = Scratch()
+        try:
+            statics, access = c20.analyse(sc2.src, LIB_DEFS)
+            fnd = c20.findings(statics, access)
+            c20_info = {'statics': {k: v for k, v in statics.items()}, 'access': {k: {a: sorted(b) for a, b in v.items()} for k, v in access.items()}, 'findings': fnd, 'confirm': None}
+            if fnd:
+                conf = c20.confirm(ROOT, sc2.src, sc2.dir)
+                c20_info['confirm'] = conf
+                confirmed = conf.get('tsan', ('', ''))[0] == 'race' or conf.get('results', ('', ''))[0] == 'mismatch'
+                rp_dir = os.path.join(ROOT, 'evidence', 'replays'); os.makedirs(rp_dir, exist_ok=True)
+                rp = os.path.join(rp_dir, 'C20.frame.replay')
+                with open(rp, 'w') as f:
+                    f.write('#vf-c20 findings (replay: build repro/c20_threads.c with -fsanitize=thread against /repo and run it under setarch -R)\n')
+                    f.write(json.dumps({'findings': fnd, 'confirm': conf}, indent=1, default=str))
+                r = {'id': 'C20.frame.statics', 'src': 'vf/c20.py', 'defs': [], 'unwind': None, 'unwindset': [], 'obligations': len(statics), 'failed': [], 'witness_ok': 1, 'witness_missing': [],
+                     'solver_s': 0.0, 'wall_s': 0.0, 'violations': [], 'notes': [], 'sample': None, 'nonwitness_obligations': len(statics)}
+                entry = {'kind': 'frame', 'property': 'C20.frame', 'description': '; '.join('%s: %s' % (x['object'], x['detail']) for x in fnd)[:600], 'line': None, 'function': None, 'replay': rp,
+                         'native': 'fail' if confirmed else 'pass', 'detail': json.dumps(conf, default=str)[:1200]}
+                r['failed'].append(entry)
+                if confirmed:
+                    r['violations'].append(entry); r['status'] = 'VIOLATION'
+                else:
+                    r['status'] = 'INCONCLUSIVE'
+                results.append(r)
+            else:
+                results.append({'id': 'C20.frame.statics', 'src': 'vf/c20.py', 'defs': [], 'unwind': None, 'unwindset': [], 'obligations': len(statics), 'failed': [], 'witness_ok': 1, 'witness_missing': [],
+                                'solver_s': 0.0, 'wall_s': 0.0, 'violations': [], 'notes': [], 'sample': {'statics': sorted(statics)}, 'nonwitness_obligations': len(statics), 'status': 'OK'})
+        finally:
+            sc2.close()
     known = [k for k in load_known() if k['property'] == pid]
     viol = []; known_hit = []; problems = []
     for r in results:
@@ -416,6 +448,7 @@ def cmd_check(args):
             'inconclusive': [{'query': r['id'], 'status': r['status'], 'notes': r['notes'][:2], 'failed': r['failed'][:3], 'witness_missing': r['witness_missing']} for r in problems],
             'known_findings': [k['text'] for k, v in known_hit],
             'explanation': meta.get('explanation', ''),
+            'c20': c20_info,
         },
         'assumptions': meta.get('assumptions', []),
         'wall_s': round(time.time() - t0, 2),
@@ -423,6 +456,8 @@ def cmd_check(args):
     }
     if not ev['coverage']['explanation']:
         del ev['coverage']['explanation']
+    if ev['coverage']['c20'] is None:
+        del ev['coverage']['c20']
     os.makedirs(os.path.join(ROOT, 'evidence'), exist_ok=True)
     with open(os.path.join(ROOT, 'evidence', pid + '.json'), 'w') as f:
         json.dump(ev, f, indent=1)
